@@ -128,6 +128,9 @@ class C02(Check):
                     for s in SCALES:
                         yield {'k': 'g', 'n': n, 'edges': edges, 'geo': unit['geo'], 'm': m, 'place': place,
                                's': s, 'rs': rs}
+                # the target's coordinates held as float32 arrays (as a trajectory reader hands them over)
+                yield {'k': 'g', 'n': n, 'edges': edges, 'geo': unit['geo'], 'm': 3, 'place': 'between',
+                       's': 0.5, 'rs': 'gen', 'f32': 1}
         elif unit['k'] == 'hub':
             for s in SCALES:
                 yield {'k': 'hub', 'hub': unit['hub'], 's': s}
@@ -241,6 +244,8 @@ class C02(Check):
         else:
             rpos = xm.ref_positions(geo, n, seed)
         tpos = xm.target_positions(rpos, anch, m, place, seed)
+        tdtype = np.float32 if case.get('f32') else np.float64
+        tpos = tpos.astype(tdtype).astype(np.float64)
         assign, _, _ = xm.ref_map(rpos, anch, tpos, s)
         # anchors within ~1e-9 of collinear (classes NEAR) leave the axis undetermined in practice: like the exactly
         # collinear ones they are judged by the three invariants of the statement
@@ -248,10 +253,10 @@ class C02(Check):
         ref = xm.ref_molecule(n, edges)
         ref.atoms_positions = rpos.copy()
         tgt = xm.tgt_molecule(m)
-        tgt.atoms_positions = tpos.copy()
+        tgt.atoms_positions = tpos.astype(tdtype)
         try:
             emap = ExchangeMap(ref, tgt, s)
-            tgt.atoms_positions = tpos[::-1] * 0.5 + np.array([3.0, 1.0, -2.0])    # the map keeps what it saw at construction
+            tgt.atoms_positions = (tpos[::-1] * 0.5 + np.array([3.0, 1.0, -2.0])).astype(tdtype)    # the map keeps what it saw at construction
             base_mol = emap(ref)
             base = base_mol.atoms_positions
         except Exception as ex:
@@ -264,9 +269,24 @@ class C02(Check):
             return
         moved = ref.copy()
         kind = 'axis-invariants' if all(degenerate) else ('full-equality' if not any(degenerate) else 'mixed')
-        for ri, ti, rot, tr, inplace in self._with_tiny(case, seed):
+        rots = rotations(seed)
+        if isinstance(case.get('tr'), str):
+            motions = [(case['rot'], case['tr'], rots[case['rot']], None, False)]
+        else:
+            motions = list(self._with_tiny(case, seed))
+            if 'rot' not in case:
+                # rotations about an axis THROUGH an anchor atom: that atom stays where it was, bit for bit, while its
+                # frame neighbours (and so its frame) turn
+                motions += [(ri, f'p{a}', rots[ri], None, False) for a in sorted(set(assign)) for ri in (24, 5)]
+        for ri, ti, rot, tr, inplace in motions:
             cdesc = dict(case, rot=ri, tr=ti, inplace=int(inplace))
-            mpos = rpos @ rot.T + tr
+            if isinstance(ti, str):
+                pv = int(ti[1:])
+                tr = rpos[pv] - rot @ rpos[pv]
+                mpos = rpos @ rot.T + tr
+                mpos[pv] = rpos[pv]
+            else:
+                mpos = rpos @ rot.T + tr
             obj = ref if inplace else moved
             obj.atoms_positions = mpos
             rc = ('cube' if ri < 24 else 'genrot') + ('-inplace' if inplace else '')
@@ -276,7 +296,7 @@ class C02(Check):
                 R.case(cdesc, nontrivial=False, outcome='exception', cls=f'n{n}/{geo}/{rc}')
                 R.violation(f'call/{geo}/exception', cdesc, repr(ex))
                 continue
-            R.case(cdesc, nontrivial=not (ri == 0 and ti == 0), outcome=kind, cls=f'n{n}/{geo}/{rc}')
+            R.case(cdesc, nontrivial=not (ri == 0 and ti == 0), outcome=kind, cls=f'n{n}/{geo}/{rc}' + ('/about-anchor' if isinstance(ti, str) else ''))
             if not np.all(np.isfinite(out)):
                 R.violation(f'call/{geo}/non-finite', cdesc, out.tolist())
                 continue
